@@ -137,6 +137,8 @@ fn rule_log() -> Value {
             smartcalc::verif::RuleEvent::Refuse(r) => json!({"e": "refuse", "rule": r}),
             smartcalc::verif::RuleEvent::Apply(r, ts) => json!({"e": "apply", "rule": r, "toks": ts.iter().map(tok).collect::<Vec<_>>()}),
             smartcalc::verif::RuleEvent::Done => json!({"e": "done"}),
+            smartcalc::verif::RuleEvent::Claim(s, t, ok) => json!({"e": "claim", "s": s, "t": t, "ok": ok}),
+            smartcalc::verif::RuleEvent::Scan(n) => json!({"e": "scan", "n": n}),
         });
     }
     Value::Array(out)
